@@ -794,7 +794,18 @@ def run_chroot(case) -> CaseResult:
         driver = (RawDriver if case['driver'] == 'raw'
                   else ApiDriver)(pair, case['v'])
 
-        for op in case['ops']:
+        def real(a):
+            """$ROOT in a generated path stands for the server-side location
+            of the root (a client that knows or guesses where it is jailed)"""
+
+            if isinstance(a, bytes) and b'$ROOT' in a:
+                labels.add('path:names-real-root')
+                return a.replace(b'$ROOT', root)
+            if isinstance(a, list):
+                return [real(x) for x in a]
+            return a
+
+        for op in [[real(a) for a in op] for op in case['ops']]:
             for p in op_paths(op):
                 hostile |= path_labels(p, labels)
 
@@ -830,6 +841,9 @@ ODD = [b'..', b'..', b'..', b'.', b'', b'outside', b'canary.txt', b'root',
        b'cwd', b'l2', b'sub', b'x' * 300, b'\xff\xfe', b'a b', b'...']
 WHOLE = [b'', b'/', b'.', b'..', b'//', b'/..', b'/../..', b'../..',
          SENTINEL + b'/x', SENTINEL, b'/a/b/c', b'a/f', b'/a/../../f',
+         b'$ROOT', b'$ROOT/f', b'$ROOT/../outside/canary.txt',
+         b'$ROOT/a/../../outside', b'$ROOT//.././outside/canary.txt',
+         b'$ROOT/../root-private/new', b'$ROOT/..',
          b'../root/f', b'/../outside/canary.txt', b'../outside/canary.txt',
          b'/' + b'y' * 5000]
 
@@ -838,6 +852,7 @@ def paths():
     comp = st.one_of(pick(NAMES), pick(NAMES),
                      pick(ODD))
     lead = pick([b'', b'', b'', b'', b'', b'', b'/', b'/', b'/',
+                            b'$ROOT/', b'$ROOT/../', b'$ROOT//',
                             b'/', b'/', b'/', b'/', b'/', b'/', b'/../',
                             b'/../', b'../', b'../', b'./', b'///', b'/./',
                             b'//', b'', b'/', b'/', b'/', b'/'])
@@ -1749,6 +1764,7 @@ FAMILIES = [
            required={'all': ['op:' + k for k in OP_KINDS] +
                      ['path:dotdot', 'path:abs', 'path:empty-comp',
                       'path:nonutf8', 'path:long', 'path:sentinel',
+                      'path:names-real-root',
                       'symlink-created', 'link-followed', 'relocated-link',
                       'ok:rename', 'ok:symlink', 'ok:mkdir', 'ok:open',
                       'v3', 'v4', 'v5', 'v6', 'raw', 'api']}),
